@@ -585,6 +585,41 @@ def corpus_cases():
     return out
 
 
+def history_family(c, tier, seed, hbin):
+    """from_json is a function of its text: what it returns for a text must not depend on the texts it was given before (rejected
+    over-deep texts, malformed texts, valid texts).  Each history runs in one process; every probe is also run alone in a fresh process."""
+    rnd = random.Random(seed * 131 + 18)
+    deep = [b"[" * 5000, b'{"a":' * 3000, b"[" * 513 + b"]" * 513, b"[" * 600]
+    junk = [b'{"a" 1}', b"[1,,2]", b'"abc', b"[", b'{"k":[1,2', b"\\", b'[1e999]']
+    valid = [b'{"a":[1,2,{"b":null}]}', b"[[[[1]]]]", b'"x"', b"[]"]
+    probes = [b'{"a":[1,[2,[3]]]}', b"[" * 300 + b"]" * 300, b"[" * 511 + b"7" + b"]" * 511, b"[" * 512 + b"]" * 512, b'{"a":' * 200 + b"1" + b"}" * 200, b"[1,2,3]"]
+    alone = {}
+    for p in probes:
+        rc, res, err = vlib.run_lines(hbin, ["seq " + hx(p)], timeout=120)
+        alone[p] = res[0] if res else "?"
+    lengths = [1, 2, 5, 20, 100] + ([600, 1500] if tier == "thorough" else [520])
+    lines, metas = [], []
+    for n in lengths:
+        for kind in ("deep", "junk", "valid", "mixed"):
+            pre = [rnd.choice({"deep": deep, "junk": junk, "valid": valid, "mixed": deep + junk + valid}[kind]) for _ in range(n)]
+            lines.append("seq " + " ".join(hx(x) for x in pre + probes))
+            metas.append((kind, n))
+    rc, res, err = vlib.run_lines(hbin, lines, timeout=1200)
+    for (kind, n), line, r in zip(metas, lines, res):
+        c.cov["evaluations"] = c.cov.get("evaluations", 0) + 1
+        c.dist["history:" + kind] = c.dist.get("history:" + kind, 0) + 1
+        obs = r.split(" ; ")
+        if r.startswith("SIG(") or r.startswith("EXIT(") or len(obs) != n + len(probes):
+            c.fail("the host died or lost an answer in a history of from_json calls", {"case": "%d %s texts, then the probes" % (n, kind), "observed": r[:200]})
+            continue
+        for p, o in zip(probes, obs[n:]):
+            if o != alone[p]:
+                c.fail("from_json answers differently for the same text after earlier calls",
+                       {"case": "history: %d %s texts, then `%s`" % (n, kind, (p[:40] + b"...").decode("latin-1") if len(p) > 40 else p.decode("latin-1")),
+                        "in_history": o[:120], "alone": alone[p][:120], "history_kind": kind, "length": n})
+                break
+
+
 def check(tier, seed):
     c = vlib.Check("C18", tier, seed)
     c.cov["rule"] = ("cases = `from <text>` (arbitrary / valid / truncated / mutated texts, number spellings x contexts, whitespace and escape bytes, deep nesting) "
@@ -602,6 +637,7 @@ def check(tier, seed):
     hbin, mbin, sbin = binaries(c)
     cases = corpus_cases() + build_cases(tier, seed)
     impl, model, verdicts = run(c, cases, hbin, mbin, sbin, model_skip)
+    history_family(c, tier, seed, hbin)
     want = {"tree": 2, "valid": 1, "mutated": 1, "number": 1, "deep": 1}
     for k, (kind, line) in enumerate(cases):
         if want.get(kind, 0) > 0 and len(line) < 600:
